@@ -1,4 +1,5 @@
 import A2Verif.Lemmas.C12FsPascal
+import A2Verif.Lemmas.C12FsDos
 /-!
 # C12 — the file-system read paths never panic and terminate within their caps (theorems)
 
@@ -390,5 +391,206 @@ example : (getDirectory goodImg).toOption.map (·.entries.length) = some 18 ∧ 
   simpa using this x hx
 
 end Pascal
+
+/-! ## DOS 3.x -/
+section Dos
+open A2Verif.Fs.Dos3x A2Verif.C12FsId.Dos
+
+/-- a freshly mounted disk (`from_img`: no VTOC buffer yet) on an image of 256-byte sectors -/
+theorem diskOk_fresh {r : Raw} (hu : Units256 r) (c : Nat) : DiskOk { raw := r, c := c, vtoc := none } :=
+  ⟨hu, fun v h => by cases h⟩
+
+/-- decidable form of `Units256`, for concrete images -/
+theorem units256_of_all {r : Raw} (h : r.units.toList.all (fun b => b.length == 256) = true) : Units256 r := by
+  intro i b hb
+  rw [List.all_eq_true] at h
+  have : b ∈ r.units.toList := by
+    rw [Array.mem_toList_iff]
+    exact Array.mem_of_getElem? hb
+  simpa using h b this
+
+/-- **C12 / DOS 3.x, the main statement (code as written): for every image of 256-byte sectors — any number of
+sectors, any bytes, 16 or 13 (or any other number of) sectors per track — `catalog`, `glob`, `tree` and `get` of any
+name do not panic**, whether or not the image was identified as DOS.  Every sector buffer that reaches
+`DirectorySector::from_bytes`, `TrackSectorList::from_bytes` or the copy loop of `read_sector` is 256 bytes; pointers
+are followed through `read_block`, which refuses what is outside the image; `tslist.pairs[2p]` is covered by the
+`max_pairs ≤ 122` check of `open_vtoc_buffer`; the name conversions are total. -/
+theorem dos_reads_no_panic (d : Disk) (hd : DiskOk d) :
+    (catalog d).1 ≠ .error .panic ∧ (glob d).1 ≠ .error .panic ∧ (tree d).1 ≠ .error .panic ∧
+    ∀ name, (Fs.Dos3x.get d name).1 ≠ .error .panic := by
+  have hcat : (catalog d).1 ≠ .error .panic := by
+    unfold catalog
+    refine (run_safe hd (P := fun rows => rows.length ≤ 7 * maxDirectoryReps) ?_).1
+    apply ReadSafe.bind ReadSafe.getV; intro v _
+    exact catalogLoop_safe _ _ _ _ zeros_length
+  refine ⟨hcat, hcat, ?_, ?_⟩
+  · unfold tree
+    refine (run_safe hd (P := fun _ => True) ?_).1
+    apply ReadSafe.bind ReadSafe.getV; intro v _
+    exact treeLoop_safe _ _ _ _ zeros_length
+  · intro name
+    unfold Fs.Dos3x.get
+    split
+    · simp
+    · rename_i hl
+      exact (run_safe hd (getM_safe (by omega))).1
+
+/-- **C12 / DOS 3.x, `stat`** (`num_free_sectors` indexes the 140-byte bitmap with `track*4` and shifts by
+`sector + 32 - sectors`): no panic whenever the VTOC says at most 35 tracks and at most 32 sectors — the exact
+guard; beyond it the Rust does panic (`example` below), but `test_img` only lets 35 tracks and 13/16 sectors mount. -/
+theorem dos_stat_no_panic_of_geometry (d : Disk) (hd : DiskOk d)
+    (hg : ∀ v, openVtoc d = .ok v → Vtoc.tracks v ≤ 35 ∧ Vtoc.sectors v ≤ 32) : (statFree d).1 ≠ .error .panic := by
+  unfold statFree Disk.run
+  have hs := openVtoc_spec hd
+  cases ho : openVtoc d with
+  | error e => simp only []; exact fun hh => hs.1 (by rw [ho]; cases hh; rfl)
+  | ok v =>
+    simp only []
+    obtain ⟨ht, hsec⟩ := hg v ho
+    show ((M.getV >>= fun v => M.lift (numFree v)) { c := d.c, raw := d.raw, v := v }).1 ≠ _
+    exact numFree_ne_panic ht hsec
+
+/-- what a successful identification establishes about the VTOC that `open_vtoc_buffer` will read -/
+theorem dos_testImg_geometry {c : Nat} {r : Raw} (hm : testImg c r = true) :
+    ∀ v, openVtoc { raw := r, c := c, vtoc := none } = .ok v → Vtoc.tracks v = 35 ∧ Vtoc.sectors v = c := by
+  intro v hv
+  unfold testImg at hm
+  unfold openVtoc at hv
+  simp only [] at hv
+  split at hm
+  · simp at hm
+  · cases hr : imgRead c r vtocTrack 0 with
+    | error e => rw [hr] at hm; simp at hm
+    | ok dat =>
+      rw [hr] at hm hv
+      simp only [] at hm hv
+      split at hm
+      · simp at hm
+      · rename_i hlen
+        rw [if_neg hlen] at hv
+        split at hv
+        · simp at hv
+        · simp only [Except.ok.injEq] at hv
+          subst hv
+          split at hm
+          · simp at hm
+          · split at hm
+            · simp at hm
+            · split at hm
+              · simp at hm
+              · split at hm
+                · simp at hm
+                · rename_i hgeo
+                  constructor <;> omega
+
+/-- **C12 / DOS 3.x, after a successful identification `stat` does not panic either** (16- and 13-sector images;
+any `c ≤ 32`). -/
+theorem dos_mounted_stat_no_panic (c : Nat) (r : Raw) (hu : Units256 r) (hc : c ≤ 32) (hm : testImg c r = true) :
+    (statFree { raw := r, c := c, vtoc := none }).1 ≠ .error .panic := by
+  apply dos_stat_no_panic_of_geometry _ (diskOk_fresh hu c)
+  intro v hv
+  obtain ⟨h1, h2⟩ := dos_testImg_geometry hm v hv
+  omega
+
+/-- **C12 / DOS 3.x, bounded time, directory walk.**  `catalogLoop`'s fuel is the Rust's `MAX_DIRECTORY_REPS = 100`
+(the loop `for _try in 0..MAX_DIRECTORY_REPS`); it is consumed once per directory sector, so a catalog chain with a
+cycle ends in `IOError` after 100 sectors, and a listing never has more than 700 rows. -/
+theorem dos_catalog_rows_bounded (d : Disk) (hd : DiskOk d) (rows : List (Bytes × Nat × Nat))
+    (h : (catalog d).1 = .ok rows) : rows.length ≤ 700 := by
+  unfold catalog at h
+  refine (run_safe hd (P := fun rows => rows.length ≤ 7 * maxDirectoryReps) ?_).2 rows h
+  apply ReadSafe.bind ReadSafe.getV; intro v _
+  exact catalogLoop_safe _ _ _ _ zeros_length
+
+/-- **C12 / DOS 3.x, bounded time, track/sector list walk.**  `readLoop`'s fuel is `MAX_TSLIST_REPS = 1000`, consumed
+once per T/S list sector; each visits `max_pairs` pairs (`≤ 122` by `open_vtoc_buffer`): a fetched file has at most
+`max_pairs · 1000 ≤ 122 000` chunks and a T/S chain with a cycle ends in `EndOfData`. -/
+theorem dos_tslist_walk_bounded (w : W) (hw : WOk w) (maxPairs t s count : Nat) (buf : Bytes) (hb : buf.length = 256)
+    (cs : List (Nat × Bytes)) (h : (readLoop maxPairs maxTslistReps t s count buf w).1 = .ok cs) :
+    cs.length ≤ maxPairs * 1000 ∧ (readLoop maxPairs maxTslistReps t s count buf w).2 = w := by
+  obtain ⟨h1, _, h3⟩ := readLoop_safe maxPairs maxTslistReps t s count buf hb w hw
+  exact ⟨h3 cs h, h1⟩
+
+/-- … and `max_pairs` is between 1 and 122 on every disk whose VTOC buffer was opened from the image -/
+theorem dos_maxPairs_bounded (r : Raw) (hu : Units256 r) (c : Nat) (v : Bytes)
+    (h : openVtoc { raw := r, c := c, vtoc := none } = .ok v) : 1 ≤ Vtoc.maxPairs v ∧ Vtoc.maxPairs v ≤ 122 := by
+  rcases (openVtoc_spec (diskOk_fresh hu c)).2 v h with h1 | h1
+  · exact h1.2
+  · cases h1
+
+/-- **C12 / DOS 3.x, a catalog cycle is an error, not a hang.**  If the first catalog sector links to itself, the
+walk of `catalog_to_vec` (and of `glob`, which is the same walk) runs into the cap and returns `IOError`. -/
+theorem dos_catalog_selfloop_is_error (d : Disk) (v b : Bytes) (hv : openVtoc d = .ok v)
+    (hts : verifyTs v (Vtoc.track1 v) (Vtoc.sector1 v) = .ok ()) (hbps : 256 ≤ Vtoc.bytesPerSector v)
+    (hnv : ¬ (Vtoc.track1 v = vtocTrack ∧ Vtoc.sector1 v = 0))
+    (hr : imgRead d.c d.raw (Vtoc.track1 v) (Vtoc.sector1 v) = .ok b) (hb : b.length = 256)
+    (hlink : Dir.nextTrack b = Vtoc.track1 v ∧ Dir.nextSector b = Vtoc.sector1 v)
+    (hnz : ¬ (Vtoc.track1 v = 0 ∧ Vtoc.sector1 v = 0)) :
+    (catalog d).1 = .error .ioError ∧ (glob d).1 = .error .ioError := by
+  have : (catalog d).1 = .error .ioError := by
+    unfold catalog Disk.run
+    rw [hv]
+    simp only [bind_apply, getV_apply]
+    rw [catalogLoop_selfloop (w := { c := d.c, raw := d.raw, v := v }) hts
+      (fun data hd => readSector_full hbps hd hnv hr hb) hb hlink hnz _ _ zeros_length]
+  exact ⟨this, this⟩
+
+/-- **C12 / DOS 3.x, a track/sector-list cycle is an error, not a hang**: a T/S list (here: without data pairs) that
+links to itself makes the walk of `read_file` return `EndOfData` at the cap. -/
+theorem dos_tslist_selfloop_is_error (w : W) (t s mp : Nat) (b : Bytes) (hbps : 256 ≤ Vtoc.bytesPerSector w.v)
+    (hnv : ¬ (t = vtocTrack ∧ s = 0)) (hr : imgRead w.c w.raw t s = .ok b) (hb : b.length = 256)
+    (hholes : ∀ p, p < mp → Tsl.pairTrack b p = 0) (hlink : Tsl.nextTrack b = t ∧ Tsl.nextSector b = s) (hnz : t ≠ 0) :
+    readLoop mp maxTslistReps t s 0 (zeros 256) w = (.error .endOfData, w) :=
+  readLoop_selfloop (fun _ hd => readSector_full hbps hd hnv hr hb) hb hholes hlink hnz _ _ _ zeros_length
+
+/-! ### DOS 3.x: concrete images -/
+
+def z256 : Bytes := List.replicate 256 0
+/-- a sector from its leading bytes -/
+def sec256 (pre : Bytes) : Bytes := pre ++ List.replicate (256 - pre.length) 0
+/-- a 35-track, 16-sector image: VTOC (17,0), first catalog sector (17,15), one T/S list (18,15), zeros elsewhere -/
+def mkImg (vtoc cat tsl : Bytes) : Raw :=
+  { unitLen := 256, units := ⟨List.replicate 272 z256 ++ (vtoc :: List.replicate 14 z256 ++ (cat :: List.replicate 15 z256 ++ (tsl :: List.replicate 256 z256)))⟩ }
+/-- VTOC of a 16-sector volume 254 with the given `tracks` byte: catalog at (17,15), version 3, 122 pairs -/
+def vtoc16 (tracks : Nat) : Bytes :=
+  sec256 ([4, 17, 15, 3, 0, 0, 254] ++ List.replicate 32 0 ++ [122] ++ List.replicate 8 0 ++ [17, 1, 0, 0, tracks, 16, 0, 1])
+/-- a catalog sector: link, then one entry `tsl = (18,15)`, type 4, name `A`, 2 sectors -/
+def catSec (nt ns : Nat) : Bytes :=
+  sec256 ([0, nt, ns] ++ List.replicate 8 0 ++ [18, 15, 4, 0xC1] ++ List.replicate 29 0xA0 ++ [2, 0])
+/-- a T/S list: link, `pt ps` as first pair -/
+def tslSec (nt ns pt ps : Nat) : Bytes := sec256 ([0, nt, ns, 0, 0, 0, 0] ++ List.replicate 5 0 ++ [pt, ps])
+
+/-- a well-formed volume with one one-sector binary file `A` -/
+def dosGood : Raw := mkImg (vtoc16 35) (catSec 0 0) (tslSec 0 0 18 14)
+/-- the catalog sector linked to itself, the (empty) T/S list linked to itself -/
+def dosCyclic : Raw := mkImg (vtoc16 35) (catSec 17 15) (tslSec 18 15 0 0)
+/-- 36 tracks in the VTOC (not identified as DOS; `from_img` alone accepts it) -/
+def dos36 : Raw := mkImg (vtoc16 36) (catSec 0 0) (tslSec 0 0 18 14)
+
+def freshDisk (r : Raw) : Disk := { raw := r, c := 16, vtoc := none }
+
+example : Units256 dosGood ∧ Units256 dosCyclic ∧ Units256 dos36 :=
+  ⟨units256_of_all (by decide +kernel), units256_of_all (by decide +kernel), units256_of_all (by decide +kernel)⟩
+/-- non-vacuity: the good image is identified, lists its file, fetches one chunk, counts its free sectors -/
+example : testImg 16 dosGood = true ∧ ((catalog (freshDisk dosGood)).1.toOption.map (·.length)) = some 1 ∧
+    ((Fs.Dos3x.get (freshDisk dosGood) [65]).1.toOption.map (·.chunks.length)) = some 1 ∧
+    cls (statFree (freshDisk dosGood)).1 = .ok ∧ cls (tree (freshDisk dosGood)).1 = .ok := by decide +kernel
+/-- the cyclic image is identified as DOS, and its catalog is an error after 100 sectors (by the theorem, not by
+evaluation) -/
+example : testImg 16 dosCyclic = true ∧ (catalog (freshDisk dosCyclic)).1 = .error .ioError :=
+  ⟨by decide +kernel,
+   (dos_catalog_selfloop_is_error (freshDisk dosCyclic) ((vtoc16 35).take 196) (catSec 17 15) (by decide +kernel) (by decide +kernel)
+     (by decide +kernel) (by decide +kernel) (by decide +kernel) (by decide +kernel) (by decide +kernel) (by decide +kernel)).1⟩
+/-- … and the T/S list walk of `get A` on it ends in `EndOfData` -/
+example : readLoop 122 maxTslistReps 18 15 0 (zeros 256) { c := 16, raw := dosCyclic, v := (vtoc16 35).take 196 } =
+    (.error .endOfData, { c := 16, raw := dosCyclic, v := (vtoc16 35).take 196 }) :=
+  dos_tslist_selfloop_is_error _ 18 15 122 (tslSec 18 15 0 0) (by decide +kernel) (by decide +kernel) (by decide +kernel) (by decide +kernel)
+    (by decide +kernel) (by decide +kernel) (by decide +kernel)
+/-- the geometry guard of `stat` is exact: 36 tracks in the VTOC make `num_free_sectors` index the bitmap out of
+range (only reachable through `from_img` without `test_img`) -/
+example : testImg 16 dos36 = false ∧ cls (statFree (freshDisk dos36)).1 = .panic ∧ cls (catalog (freshDisk dos36)).1 = .ok := by
+  decide +kernel
+
+end Dos
 
 end A2Verif.C12Fs
